@@ -4,6 +4,7 @@ import (
 	"encoding/base64"
 	"fmt"
 	"net/url"
+	"sort"
 	"strings"
 	"time"
 
@@ -212,6 +213,31 @@ func C16(c *run.Ctx) {
 						viol("device-error-class", fmt.Sprintf("state=%s expired=%v wrong-client=%v want=%s got=%s", st, expired, ev == "pollW", wantClass, out.ErrName), "wrong error class: "+world.ErrDetail(out.Err))
 					}
 					if wantClass == "" {
+						// several clauses of the statement apply at once and it does not rank them: the answer has to be the class of ONE
+						// of the applicable clauses
+						allowed := map[string]bool{}
+						if expired || boundary {
+							allowed["expired_token"] = true
+						}
+						if ev == "pollW" {
+							allowed["invalid_grant"] = true
+						}
+						switch {
+						case d.used:
+							allowed["invalid_grant"] = true
+						case d.decision == "pending":
+							allowed["authorization_pending"] = true
+						case d.decision == "rejected":
+							allowed["access_denied"] = true
+						}
+						if !allowed[out.ErrName] {
+							var al []string
+							for k := range allowed {
+								al = append(al, k)
+							}
+							sort.Strings(al)
+							viol("device-error-class", fmt.Sprintf("state=%s expired=%v wrong-client=%v want-one-of=%v got=%s", st, expired, ev == "pollW", al, out.ErrName), "the answer is none of the classes the applicable clauses name: "+world.ErrDetail(out.Err))
+						}
 						c.Unspecified("device-state-not-ordered-by-statement")
 					}
 				}
